@@ -305,6 +305,57 @@ def run(tier: str) -> int:
                           f"zeta at gamma = {gam}: chi2 = {chi2:.1f} ({dof} dof, p = {pval:.2e}), mean {z.mean():.4f} vs {mean_want:.4f} (z = {zscore:.1f}) over {len(z)} samples", {"gamma": gam, "hist": obs.tolist(), "expected": (mass * len(z)).tolist()})
         if len(rep.samples) < 3:
             rep.sample({"gamma": gam, "samples": len(z), "mean_zeta": float(z.mean()), "mean_expected": mean_want, "chi2": chi2, "dof": dof})
+    # ---- (iv) the adaptive driver: every step is biased and scaled with ITS OWN delta -------------------------------
+    # constant forces, a committee whose spread changes from evaluation to evaluation (so delta changes from step to step);
+    # after each step: gamma = F delta / 2kT with the delta the driver shows, displacement = zeta delta (m_min/m)^p
+    from quansino.mc.fbmc import AdaptiveForceBias
+
+    class Committee(FixedForces):
+        def __init__(self, forces, spreads):
+            super().__init__(forces)
+            self.spreads = spreads
+            self.k = 0
+
+        def calculate(self, atoms=None, properties=("energy",), system_changes=all_changes):
+            super().calculate(atoms, properties, system_changes)
+            x = self.spreads[self.k % len(self.spreads)]
+            self.k += 1
+            n_ = len(self.atoms)
+            base = np.ones((n_, 3))
+            self.results["forces_comm"] = np.stack([base * (1 - x), base * (1 + x)])
+            self.results["energies"] = np.array([-x * n_, x * n_]) + 3.0
+
+    nad = 0
+    for it in range(6 if tier == "quick" else 60):
+        scheme = ("forces", "energy")[it % 2]
+        fn = ("tanh", "exp")[(it // 2) % 2]
+        n = 3
+        T = float(rs.choice([300.0, 900.0]))
+        forces = rs.choice([-1.0, 1.0], size=(n, 3)) * rs.uniform(0.5, 3.0, size=(n, 3))
+        atoms = Atoms("HCuAu", positions=np.arange(9, dtype=float).reshape(3, 3) * 1.9 + 1.0, cell=[30, 30, 30], pbc=False)
+        atoms.calc = Committee(forces, spreads=[0.0, 0.05, 0.4, 0.01, 0.2])
+        afb = AdaptiveForceBias(atoms, min_delta=0.02, max_delta=0.3, temperature=T, scheme=scheme, reference_variance=0.05, update_function=fn, seed=int(rs.randint(1, 10**6)))
+        deltas = []
+        for st in range(8):
+            pos0 = afb.atoms.get_positions()
+            afb.step()
+            nad += 1
+            d_ = np.asarray(afb.delta, float) * np.ones((n, 3))
+            deltas.append(float(d_.mean()))
+            want_gamma = np.clip(forces * d_ / (2 * kB * T), -afb.gamma_max_value, afb.gamma_max_value)
+            m = afb.atoms.get_masses()[:, None] * np.ones((1, 3))
+            want_disp = np.asarray(afb.zeta) * d_ * np.power(m.min() / m, afb.masses_scaling_power)
+            ctx = {"scheme": scheme, "update_function": fn, "step": st, "delta": d_.tolist(), "gamma": np.asarray(afb.gamma).tolist()}
+            if not np.allclose(afb.gamma, want_gamma, rtol=1e-12, atol=1e-14):
+                rep.violation("adaptive:gamma-not-of-this-steps-delta", f"AdaptiveForceBias ({scheme}, {fn}) step {st}: gamma is not F delta / 2kT for the delta of this step (the bias belongs to another step length than the displacement)", ctx)
+                break
+            if not np.allclose(afb.atoms.get_positions() - pos0, want_disp, rtol=1e-12, atol=1e-14):
+                rep.violation("adaptive:displacement-not-of-this-steps-delta", f"AdaptiveForceBias ({scheme}, {fn}) step {st}: the position change is not zeta delta (m_min/m)^p for the delta of this step", ctx)
+                break
+        rep.count(("adaptive", it), nontrivial=len(set(round(x, 9) for x in deltas)) > 2)
+        if len(deltas) == 8 and len(set(round(x, 9) for x in deltas)) <= 2:
+            rep.error(f"adaptive layer: delta did not vary from step to step ({deltas}): the layer exercises nothing")
+    rep.add(adaptive_steps=nad)
     rep.add(states=r.distinct, transitions=r.generated, traces_validated_against_impl=nlat + nmag, lattice_steps=nlat, lattice_layer_not_applicable=skipped, magnitude_steps=nmag, density_samples=len(gammas) * nsteps * 12, worst_mean_z=round(worst, 2),
             rule="(i) random lattice instances (gamma = k ln2 per coordinate, k in {0,+-2,+-4,+-6}; up to 3 rounds of scripted (zeta = j/4, u = (2r+1)/32) draws; masses 1..200, powers 0..1): converged coordinates, final zeta, gamma and displacement must equal what FBMC.tla's accept table implies; (ii) real generator with forces from {0, 1e-300 .. 1e300} of mixed sign, scalar and per-coordinate delta, T in {1, 300, 5000}: bound, termination, one position update, finiteness; (iii) chi-square (20 bins) and mean of zeta against the published density at several gamma; non-trivial (lattice) = more than one round")
     rep.assumptions += ["the density clause is statistical (p >= 1e-9, |z| <= 6)", "the lattice layer applies only when the code draws uniform(-1,1) then random() per round; otherwise it is counted as not applicable and layers (ii), (iii) decide"]
